@@ -34,7 +34,7 @@ func init() {
 	Register(&Check{
 		ID:    "C04",
 		Level: "exploration",
-		Rule: "(A) all priority vectors over 3 services for one tag, each service in {not tagged, -1, 0 string form, 0 map form, 1, maxint} (6^3; thorough adds minint and a second tag: 7^3 + 12^3), consumers requesting !tagged as constructor argument, field and call argument; (B) all decorator/tag incidence matrices for 2 decorators x 2 tags x 2 services (4 x 16) x 3 decorator argument sets; (C) 3 decorators and split tag lists distributed over 3 files in all 27 assignments; (E) tag lists of two services extended by later files in all 8 combinations; (F) every decorator word of length <= 3 (thorough 4) over two tags on services carrying both / one of them; (G) decorators and calls arriving through one pattern with a wildcard directory segment (6 directory pairs); (H) thirteen carriers whose names differ in case, digits and separators; (D) scopes of tagged services (shared, non_shared, contextual). " +
+		Rule: "(A) all priority vectors over 3 services for one tag, each service in {not tagged, -1, 0 string form, 0 map form, 1, maxint} (6^3; thorough adds minint and a second tag: 7^3 + 12^3), consumers requesting !tagged as constructor argument, field and call argument; (B) all decorator/tag incidence matrices for 2 decorators x 2 tags x 2 services (4 x 16) x 3 decorator argument sets; (C) 3 decorators (distinct functions; the same function told apart by its arguments) and split tag lists distributed over 3 files in all 27 assignments; (E) tag lists of two services extended by later files in all 8 combinations; (F) every decorator word of length <= 3 (thorough 4) over two tags on services carrying both / one of them; (G) decorators and calls arriving through one pattern with a wildcard directory segment (6 directory pairs); (H) thirteen carriers whose names differ in case, digits and separators; (D) scopes of tagged services (shared, non_shared, contextual). " +
 			"Each configuration is executed in a probe (Get consumer, GetTaggedBy, Get of every carrier, GetInContext) and compared with the reference model. non-trivial/distinct = distinct executed configuration",
 		Assumptions: []string{"decorator tag '*' is outside the statement (the documentation does not define it) and is not generated"},
 		BudgetQuick: 280 * time.Second, BudgetThorough: 1500 * time.Second,
@@ -143,9 +143,14 @@ func init() {
 				}
 			}
 			// (C) distribution over files
-			for v := 0; v < 27; v++ {
+			for v := 0; v < 54; v++ {
+				same := v >= 27 // the same decorator function three times, told apart by its arguments only
+				v := v % 27
 				asg := []int{v % 3, (v / 3) % 3, v / 9}
 				decs := []Decorator{{Tag: "t", Decorator: "pk.Dec1", Args: []any{"d0"}}, {Tag: "t", Decorator: "pk.Dec2", Args: []any{"d1"}}, {Tag: "t", Decorator: "pk2.Dec3", Args: []any{"d2"}}}
+				if same {
+					decs = []Decorator{{Tag: "t", Decorator: "pk.Dec1", Args: []any{"d0"}}, {Tag: "t", Decorator: "pk.Dec1", Args: []any{"d1"}}, {Tag: "t", Decorator: "pk.Dec1"}}
+				}
 				files := make([]*Cfg, 3)
 				for i := range files {
 					files[i] = &Cfg{}
@@ -176,7 +181,7 @@ func init() {
 				for i, f := range files {
 					fl = append(fl, File{fmt.Sprintf("f%d.yaml", i), f.YAML()})
 				}
-				cases = append(cases, &BCase{ID: fmt.Sprintf("C/files=%d%d%d", asg[0], asg[1], asg[2]), Cfg: merged, Files: fl, Sessions: []BSession{{Ops: stdOps()}}})
+				cases = append(cases, &BCase{ID: fmt.Sprintf("C/files=%d%d%d/same-function=%v", asg[0], asg[1], asg[2], same), Cfg: merged, Files: fl, Sessions: []BSession{{Ops: stdOps()}}})
 			}
 			// (E) the tag list of one service split over 2..3 files (appended in file order), every file contributing tags
 			for v := 0; v < 8; v++ {
